@@ -48,9 +48,9 @@ ASSUMPTIONS = [
     'compartment removed earlier in the same batch is expected to be dropped',
     'integer time; constant symbolic timesteps: actor in [1,2], agents in '
     '[1,3] so that agent updates are in flight when structure changes']
-BOUNDS = {'quick': '7 operation kinds (add, delete, generate, divide with '
+BOUNDS = {'quick': '8 operation kinds (add, delete, generate, divide with '
                    'explicit daughters, divide copying the mother, move out, '
-                   'move in) x histories of length 1 (all) and 2 (selected '
+                   'move in, generate under the key of a removed compartment) x histories of length 1 (all) and 2 (selected '
                    'pairs) x agent flavours flow / legacy / none; issued by a '
                    'process, by a legacy deriver or by a first-layer flow step '
                    'during a step phase',
@@ -68,7 +68,8 @@ def jobs(tier):
             out.append(dict(name='%s-%s' % (flavor, KINDS[k]), flavor=flavor,
                             ops=[k], budget_s=100 if q else 900))
         if q:
-            pairs = [(2, 3), (3, 5), (2, 5), (5, 6), (4, 1), (2, 4)]
+            pairs = [(2, 3), (3, 5), (2, 5), (5, 6), (4, 1), (2, 4), (1, 7),
+                     (5, 7)]
             if flavor == 'none':
                 pairs = pairs[:2]
             for a, b in pairs:
